@@ -220,17 +220,31 @@ impl<'a> Probe<'a> {
         let flop = [28u8 + 3, 40 + 2, 48 + 1]; // 7c 4d 2h
         let board = drive::board_of(&flop);
         let n = range.card_pairs().len();
-        let mut setups: Vec<(Vec<HandRange>, (u8, u8))> = vec![(vec![range.clone()], (0, 4))];
-        if n <= 80 {
-            setups.push((vec![range.clone(), range.clone()], (0, 2)));
+        // (players, from, to): small ranges are drained completely (every board), larger ones on
+        // short scopes scattered over the deck, so that no card is blocked in all of them
+        let whole = ((0u8, 1u8), (48u8, 49u8));
+        let scattered = [((0u8, 1u8), (0u8, 4u8)), ((9, 20), (9, 23)), ((22, 30), (22, 33)), ((37, 40), (37, 43)), ((46, 47), (48, 49))];
+        let mut setups: Vec<(Vec<HandRange>, ((u8, u8), (u8, u8)))> = Vec::new();
+        if n <= 12 {
+            setups.push((vec![range.clone()], whole));
+        } else {
+            for s in scattered {
+                setups.push((vec![range.clone()], s));
+            }
         }
-        for (players, to) in setups {
+        if n <= 6 {
+            setups.push((vec![range.clone(), range.clone()], whole));
+        } else if n <= 80 {
+            setups.push((vec![range.clone(), range.clone()], scattered[0]));
+            setups.push((vec![range.clone(), range.clone()], scattered[3]));
+        }
+        for (players, (from, to)) in setups {
             let which = self.which;
             let mut bad: Option<String> = None;
             let mut seen = 0u64;
             let r = catch(|| {
                 let mut e = FlopExhaustiveEvaluator::new(&board, &players);
-                e.scope(0, 1, to.0, to.1);
+                e.scope(from.0, from.1, to.0, to.1);
                 for sd in e {
                     seen += 1;
                     if which == Which::C10 {
